@@ -4,7 +4,15 @@
 //!   impl.txt    the implementation's canonical answer to each line
 //!   oracle.txt  `FAIL <what> <replay>` for every case on which the property itself failed
 //!   stats.json  counts and input distribution
+mod c05;
+mod c10;
+mod c11;
+mod olpc;
 mod c20;
+mod jsongen;
+mod jsongen_parse;
+mod meta;
+mod model;
 mod proto;
 mod rng;
 
@@ -53,6 +61,9 @@ fn main() {
     // panics of the code under test are caught per case; keep stderr quiet
     std::panic::set_hook(Box::new(|_| {}));
     match prop.as_str() {
+        "C05" => c05::run(&cfg),
+        "C10" => c10::run(&cfg),
+        "C11" => c11::run(&cfg),
         "C20" => c20::run(&cfg),
         p => {
             eprintln!("no generator for {}", p);
